@@ -28,7 +28,7 @@ type registry interface {
 }
 
 var registryNames = []string{"untyped", "namespaced", "combiner", "decoder", "sd", "gin-render", "mux-render",
-	"gin-render-handler", "mux-render-handler"}
+	"gin-render-handler", "mux-render-handler", "gin-render-negotiate"}
 
 // newRegistry returns an adapter. Registries that are process-wide (combiner, decoder, sd,
 // renders) are shared by every adapter of that kind: scenarios use their own key prefixes.
@@ -52,6 +52,8 @@ func newRegistry(kind string) registry {
 		return ginRenderReg{viaHandler: true}
 	case "mux-render-handler":
 		return muxRenderReg{viaHandler: true}
+	case "gin-render-negotiate":
+		return ginNegotiateReg{}
 	}
 	panic("unknown registry " + kind)
 }
@@ -121,7 +123,14 @@ func (c *combinerReg) get(k string) (int64, bool) {
 	if !ok {
 		return 0, false
 	}
-	return rc(0, nil).Data["id"].(int64), true
+	// the built-in combiner (registered under "default") is a component like any other, but it does
+	// not answer with a number: it counts as "no registration of ours"
+	resp := rc(0, nil)
+	if resp == nil {
+		return 0, false
+	}
+	id, ok := resp.Data["id"].(int64)
+	return id, ok
 }
 func (c *combinerReg) clone() map[string]int64 { return nil }
 
@@ -229,3 +238,25 @@ func (m muxRenderReg) get(k string) (int64, bool) {
 	return id, ok
 }
 func (muxRenderReg) clone() map[string]int64 { return nil }
+
+// the negotiated render looks the built-in names xml / yaml / json up at request time: lookups go
+// through an endpoint whose output encoding is "negotiate", the Accept header selects the name
+type ginNegotiateReg struct{}
+
+var negotiateKeys = []string{"xml", "yaml", "json"}
+
+func (ginNegotiateReg) reg(k string, v int64) { ginRenderReg{}.reg(k, v) }
+func (ginNegotiateReg) get(k string) (int64, bool) {
+	accept := map[string]string{"xml": gin.MIMEXML, "yaml": gin.MIMEYAML, "json": gin.MIMEJSON}[k]
+	resp := &proxy.Response{Data: map[string]interface{}{"x": 1}, IsComplete: true}
+	cfg := &config.EndpointConfig{Endpoint: "/x", Method: "GET", Timeout: 10 * time.Second, OutputEncoding: krakendgin.NEGOTIATE,
+		Backend: []*config.Backend{{URLPattern: "/b", Encoding: "json"}}}
+	h := krakendgin.EndpointHandler(cfg, stubProxyFor(resp))
+	c, _ := gin.CreateTestContext(httptest.NewRecorder())
+	c.Request = httptest.NewRequest("GET", "/x", nil)
+	c.Request.Header.Set("Accept", accept)
+	h(c)
+	id, ok := resp.Data["id"].(int64)
+	return id, ok
+}
+func (ginNegotiateReg) clone() map[string]int64 { return nil }
